@@ -270,21 +270,36 @@ func c05Enum(ctx *ev.Ctx, fn func(C05Case)) string {
 			}
 		}
 		var offs []int
+		cutCap := maxCuts
+		has70k := false
+		for _, x := range sq {
+			if x >= 70000 {
+				has70k = true
+			}
+		}
 		if total <= 200 {
 			for o := 1; o < total; o++ {
 				offs = append(offs, o)
 			}
+		} else if !thorough {
+			offs = interesting(sq, false)
+			cutCap = 2
+			if len(sq) == 3 || len(offs) > 120 {
+				cutCap = 1 // three large messages: single cuts (and uniform readers) only
+			}
 		} else {
-			offs = interesting(sq, thorough && len(sq) <= 2)
-		}
-		cutCap := maxCuts
-		if total > 200 && len(sq) == 3 {
-			cutCap = 1 // three large messages: single cuts (and uniform readers) only
-			if thorough {
+			// thorough: wide neighbourhoods for single messages, three cuts where the offset set is small
+			offs = interesting(sq, len(sq) == 1)
+			switch {
+			case len(sq) == 1 && !has70k:
+				cutCap = 3
+			case len(sq) == 3 && has70k:
+				cutCap = 1
+			case len(offs) <= 70 && !has70k:
+				cutCap = 3
+			default:
 				cutCap = 2
 			}
-		} else if total > 200 && !thorough && len(offs) > 120 {
-			cutCap = 1
 		}
 		for _, buffered := range []bool{false, true} {
 			base := C05Case{Sizes: sq, Buffered: buffered, Trunc: -1, BadLen: -1}
@@ -345,7 +360,7 @@ func c05Enum(ctx *ev.Ctx, fn func(C05Case)) string {
 			}
 		}
 	}
-	return "all sequences of <=3 messages over body sizes {0,8,1016,1024,1028,4100,70000}; read through a scripted io.Reader and through bufio.NewReader on top of it; all cut vectors with <=2 (thorough 3) cuts - every offset for streams <=200 bytes, otherwise every offset within +-3 (thorough +-24 for <=2 messages) of a message border, header/body border, 1 KiB and 4 KiB boundary (three large messages: <=1 cut, thorough 2); uniform 1..40-byte readers; truncation at every such offset (plain, 7-byte reads, and with one earlier cut for short streams); a header declaring each length 0..19 followed by 40 more bytes after every sequence of <=2 messages and as the first header. Distinct by (sizes, cuts, unit, bufio, truncation, bad length)."
+	return "all sequences of <=3 messages over body sizes {0,8,1016,1024,1028,4100,70000}; read through a scripted io.Reader and through bufio.NewReader on top of it; all cut vectors with <=2 (thorough 3) cuts - every offset for streams <=200 bytes, otherwise every offset within +-3 (thorough: +-24 for single messages) of a message border, header/body border, 1 KiB and 4 KiB boundary (quick: three large messages or more than 120 candidate offsets: <=1 cut; thorough: 3 cuts where the candidate set has <=70 offsets and no 70 000-byte message is involved, otherwise 2, and 1 for three messages including the 70 000-byte one); uniform 1..40-byte readers; truncation at every such offset (plain, 7-byte reads, and with one earlier cut for short streams); a header declaring each length 0..19 followed by 40 more bytes after every sequence of <=2 messages and as the first header. Distinct by (sizes, cuts, unit, bufio, truncation, bad length)."
 }
 
 func runC05(ctx *ev.Ctx) {
